@@ -29,6 +29,10 @@ CHECKS = {
          "Exhaustive within bounds: every value class x both helper functions x both serde_json routes; every ID type expression up to list depth 2 (3 thorough) x leaf kinds, null at each level, absence, scalar-for-list, x three positions; generated code must type-check (rustc) and coerce exactly the ID members (siblings String / Int must not coerce).",
          "Trusted: TLC, projection, rustc + serde. Integers beyond the signed 64-bit range are outside the property.",
          "DESIGN.md §5 C16", "model_checking"),
+ "C18": ("TLA+ model of the positional attribute scanner (DeriveAttr / MC_C18) model-checked by TLC against the reference meaning on every arrangement; arrangements replayed into the real attributes.rs; OptionsBuilt events of real hooked derives validated by TLC trace validation (Trace_C18) and derive tokens compared with the library's",
+         "TLC explores the scanner model (one action per loop iteration of extract_attr / extract_attr_list / ident_exists) on every subset of <=2 (3 thorough) optional keys, all permutations, with and without trailing comma, and checks it returns exactly the written value or nothing. Every arrangement is rendered (4 literal styles, 3 spacings, surrounding attributes, visibilities) and fed to the real attribute functions; a sample is compiled as real derives in a crate living in a sub-directory with the hooked macro, and the recorded events (resolved paths, every option) are validated against the specification with TLC; the derive's tokens equal the library's for the written options.",
+         "Trusted: TLC, the renderer of attribute text, syn. Hook: graphql_query_derive::verif (guarded). One representative value per key.",
+         "DESIGN.md §5 C18", "model_checking"),
 }
 
 
